@@ -4,6 +4,7 @@ package conc
 
 import (
 	"net/http"
+	"os"
 	"strings"
 	"testing/fstest"
 	"time"
@@ -40,7 +41,7 @@ func Profile() *world.Profile {
 		BeforesPm:  200,
 		AutoHeadPm: 200,
 		MinRoutes:  2, MaxRoutes: 10, MaxRouteHs: 3,
-		Envs:      []int{1, 2},
+		Envs:      []int{0, 1, 2},
 		HeadersPm: 120,
 		NamedPm:   500,
 		MaxActs:   3, NextMax: 1, RetW: []int{16, 1, 1},
@@ -88,6 +89,11 @@ func (Engine) Run(t *tape.Tape, o eng.Opts) *eng.Result {
 	if sw.Intn(4) == 1 {
 		p.StaticPm = 900
 	}
+	panicOdds := 10
+	if world.AutoMode {
+		panicOdds = 5
+	}
+	panicStorm := sw.Intn(panicOdds) == 1 // many requests panic at about the same time behind one Recovery, development pages on
 	if sw.Intn(4) == 1 {
 		p.MaxActs = 5
 		p.NextMax = 2
@@ -115,7 +121,13 @@ func (Engine) Run(t *tape.Tape, o eng.Opts) *eng.Result {
 		p.RetW = []int{5, 1, 1}
 	}
 	cfg := sched.Config{Sched: t.Stream("sched"), Time: t.Stream("time"), MaxSteps: world.StepCap(6000)}
-	switch sw.Weighted(1, 4, 4, 3) {
+	polW := []int{1, 4, 4, 3}
+	if world.AutoMode {
+		// the windows statement-level yields open are a few steps wide and mostly need one task
+		// held back for a long stretch while others come and go: priority schedules do that
+		polW = []int{1, 3, 3, 6}
+	}
+	switch sw.Weighted(polW...) {
 	case 0:
 		cfg.Policy = sched.PolRunToCompletion
 	case 1:
@@ -123,10 +135,52 @@ func (Engine) Run(t *tape.Tape, o eng.Opts) *eng.Result {
 	case 2:
 		cfg.Policy = sched.PolSticky
 		cfg.SwitchPermille = []int{100, 300, 600}[sw.Intn(3)]
+		if world.AutoMode {
+			// statement-level steps are ~25 times finer: keep bursts comparable to a request's length
+			cfg.SwitchPermille = []int{4, 15, 60, 300}[sw.Intn(4)]
+		}
 	case 3:
 		cfg.Policy = sched.PolPCT
 		cfg.PCTDepth = 1 + sw.Intn(3)
 		cfg.PCTHorizon = 40 + sw.Intn(200)
+		if world.AutoMode {
+			cfg.PCTHorizon *= 25 // statement-level yields: runs are that much longer, the change points spread with them
+			cfg.PCTDepth = 2 + sw.Intn(2)
+		}
+	}
+	// "Any number of requests": now and then several dozen requests are in flight at once and
+	// advance in lock step, so that whatever is bounded per instance (slots, pools, tables)
+	// meets more concurrent holders than it has room for.
+	stormOdds := 12
+	if world.AutoMode {
+		stormOdds = 40 // a hundred requests at statement granularity cost as much as dozens of ordinary runs
+	}
+	taskStorm := !cfgLong && sw.Intn(stormOdds) == 1
+	if os.Getenv("SIM_FORCE_STORM") != "" && !cfgLong { // experimentation knob, never set by the checks
+		taskStorm = true
+	}
+	if taskStorm {
+		p.MinTasks, p.MaxTasks, p.MinReqs, p.MaxReqs = 70, 120, 1, 1
+		p.MethodW = []int{30, 1, 4, 1, 1}
+		p.HotPm, p.HotPaths, p.HotStatic = 950, 1+sw.Intn(2), true
+		p.MwCounts = []int{0, 1}
+		p.MaxActs = 1
+		p.PanicPm, p.CancelPm, p.DeadlinePm, p.WFaultPm = 10, 0, 0, 0
+		if sw.Intn(2) == 1 {
+			p.StaticPm = 1000
+		}
+		cfg.Policy = sched.PolRoundRobin
+		if sw.Intn(3) == 0 {
+			cfg.Policy = sched.PolUniform
+		}
+		cfg.MaxSteps = world.StepCap(60000)
+		res.Probes["task_storms"]++
+	}
+	if panicStorm && !cfgLong && !taskStorm {
+		p.PanicPm, p.MissingPm, p.RecoveryPm, p.FaultFree = 900, 120, 1000, 0
+		p.MinTasks, p.MinReqs = 4, 2
+		p.Envs = []int{0}
+		res.Probes["panic_storms"]++
 	}
 	freshTwin := sw.Intn(5) == 1
 	if cfgLong {
@@ -257,8 +311,11 @@ func (Engine) Run(t *tape.Tape, o eng.Opts) *eng.Result {
 					viol("isolation.twin", "request "+cq.Line()+" under concurrency differs from the same request served alone\n  concurrent: "+a+"\n  alone:      "+b, nil)
 				}
 			}
-			if cq.Local.CIdx > 2*tq.Local.CIdx+16 {
-				viol("liveness.request-budget", "request "+cq.Line()+" needed more than twice the steps of its solo run", nil)
+			// Bounded progress, not speed: retry loops of correct lock-free code legitimately take
+			// extra steps under contention (a hundred requests in lock step), so only a request that
+			// needed an order of magnitude more than alone counts as not getting anywhere.
+			if cq.Local.CIdx > 20*tq.Local.CIdx+2000 {
+				viol("liveness.request-budget", "request "+cq.Line()+" needed more than twenty times the steps of its solo run", nil)
 			}
 			for _, e := range cq.Events {
 				if e.K == world.EvEnter && e.S != "" && e.S[0] == 't' && e.S != "tok-"+cq.Name {
